@@ -403,33 +403,14 @@ func (d *driver) generate() {
 					data = replaceWord(enc, p, bw[r.Intn(len(bw))])
 				}
 			}
-			rq := &request{Kind: "event", Name: "Ev", Params: paramsJSON(t), Anonymous: anon, Topics: topics, Data: hex.EncodeToString(data)}
-			rs := d.run(rq, t, "event")
+			rs := d.addEvent(t, anon, topics, data, "event")
 			if rs == nil {
 				continue
 			}
 			d.st.Hit(fmt.Sprintf("event:topics=%d", nt))
-			{
-				ins := make([]string, len(t.Kids))
-				for k, kid := range t.Kids {
-					ins[k] = fmt.Sprintf("(%s, %v)", kid.Coq(), kid.Indexed)
-				}
-				tps := make([]string, len(topics))
-				for k, tp := range topics {
-					tps[k] = cv.CoqBytes(unhex(tp))
-				}
-				desc := map[string]interface{}{"kind": "event", "type": t.Sig(), "anonymous": anon, "topics": topics, "impl_class": rs.Cls,
-					"impl_tree": rs.Tree, "impl_err": rs.Err, "request": rq}
-				d.w.Add(fmt.Sprintf("CEvent %s %v [%s] [%s] %s %d %d %d %d", cv.CoqBytes([]byte("Ev")), anon, strings.Join(ins, "; "),
-					strings.Join(tps, "; "), cv.Compress(data).Coq(), rs.Cls, rs.DigLen, rs.DigA, rs.DigB), desc)
-			}
 			need := nIdx
 			if !anon {
 				need++
-			}
-			// too few topics for the indexed inputs can never decode
-			if rs.Cls == 0 && nt < nIdx {
-				d.fail("an event with fewer topics than indexed inputs was decoded", "", rq, nil)
 			}
 			_ = need
 		}
@@ -511,6 +492,41 @@ func (d *driver) generate() {
 			d.fail("ParseError reported success without an entry", "", rq, nil)
 		}
 	}
+
+	// directed flip-point cases (directed.go); own PRNG stream
+	d.directed(cv.NewRand(1112))
+}
+
+// addEvent: Entry.DecodeEventData of the event Ev(members of t, with their indexed flags) through the
+// implementation and as a Coq case (C12's entry-level model instantiated with the decoder model).
+func (d *driver) addEvent(t *T, anon bool, topics []string, data []byte, mut string) *response {
+	rq := &request{Kind: "event", Name: "Ev", Params: paramsJSON(t), Anonymous: anon, Topics: topics, Data: hex.EncodeToString(data)}
+	rs := d.run(rq, t, mut)
+	if rs == nil {
+		return nil
+	}
+	d.st.Hit("mut:" + mut)
+	ins := make([]string, len(t.Kids))
+	nIdx := 0
+	for k, kid := range t.Kids {
+		ins[k] = fmt.Sprintf("(%s, %v)", kid.Coq(), kid.Indexed)
+		if kid.Indexed {
+			nIdx++
+		}
+	}
+	tps := make([]string, len(topics))
+	for k, tp := range topics {
+		tps[k] = cv.CoqBytes(unhex(tp))
+	}
+	desc := map[string]interface{}{"kind": "event", "type": t.Sig(), "anonymous": anon, "topics": topics, "impl_class": rs.Cls,
+		"impl_tree": rs.Tree, "impl_err": rs.Err, "request": rq, "mutation": mut}
+	d.w.Add(fmt.Sprintf("CEvent %s %v [%s] [%s] %s %d %d %d %d", cv.CoqBytes([]byte("Ev")), anon, strings.Join(ins, "; "),
+		strings.Join(tps, "; "), cv.Compress(data).Coq(), rs.Cls, rs.DigLen, rs.DigA, rs.DigB), desc)
+	// too few topics for the indexed inputs can never decode
+	if rs.Cls == 0 && len(topics) < nIdx {
+		d.fail("an event with fewer topics than indexed inputs was decoded", "", rq, nil)
+	}
+	return rs
 }
 
 func wordAsInt(h string) *big.Int {
